@@ -172,6 +172,8 @@ Json::Value genC13(Rng& rng) {
   plan["ops"] = ops;
   plan["scripts"] = scripts;
   plan["ticks"] = ticks;
+  if (rng.chance(0.4))
+    addTickDelays(rng, plan, ticks);
   plan["interval"] = rng.pick({1, 5});
   plan["clock_off"] = (Json::Int64)rng.range(0, 999999999);
   return plan;
